@@ -1,6 +1,6 @@
 """C12 - pipelines are reusable recipes (DESIGN 6/C12): Pipeline.tla re-subscribes the same pipeline object from fresh state; the replayer
 also interleaves two subscriptions of one pipeline and applies one operator value to two sources."""
-import vlib, parts_creation, parts_resub, parts_multi, parts_pipeline as pp, common
+import vlib, tracecheck, parts_creation, parts_resub, parts_multi, parts_pipeline as pp, common
 
 PID = 'C12'
 
@@ -14,6 +14,8 @@ def main(argv):
     parts_multi.run_reuse(rep, PID, rep.tier == 'thorough')
     # re-subscribing operators (Retry, RepeatWith, While, Catch, ConcatWith, ...): one operator value applied to the real source and to a decoy
     parts_resub.run(rep, PID, rep.tier == 'thorough')
+    # a recipe does not age: ContextWithTimeout built long before it is subscribed still gives every value its full timeout (TimedTrace.tla)
+    tracecheck.run(rep, PID, 'drive-timed', 'TimedTrace', 'TimedTrace_x.cfg', 120 if rep.tier == 'thorough' else 40, [rep.seed * 100 + 90], 'timed.ctxtimeout', comp_key='Op', extra=['-op', 'ctxtimeout'])
     # creation operators: the same observable value subscribed twice replays the whole script, user functions run once per subscription
     parts_creation.run(rep, PID, rep.tier == 'thorough')
     rep.cov['rule'] = common.PIPE_RULE + ('; C12: (a) behaviours with a second Subscribe of the SAME pipeline object after the first closed (expected = fresh state), '
@@ -26,6 +28,8 @@ def main(argv):
 
 def replay(path):
     vlib.build_harness()
+    if path.endswith('.ndjson'):
+        return tracecheck.replay(PID, 'TimedTrace', 'TimedTrace_x.cfg', path)
     import json
     mod = json.load(open(path))['replay'].get('module')
     if mod == 'ResubGen':
